@@ -47,14 +47,18 @@ def generate(rng, tier):
     tab = rng.randint(1, 50)
     names = rng.sample(range(1, 9), nb) if nb <= 8 and rng.chance(0.5) else [100 + i for i in range(nb)]
     batches = [{"tab": str(tab + i // 3), "batch": str(names[i]), "n": s} for i, s in enumerate(sizes)]
-    huge = rng.chance(0.04)
+    huge = rng.chance(0.06)
     if huge:  # a real county: hundreds of thousands of cards, a bound that exceeds the manifest by a card or two
         sizes = [rng.randint(20000, 180000) if s else 0 for s in sizes]
         batches = [dict(b, n=s) for b, s in zip(batches, sizes)]
     total = sum(sizes)
-    rel = rng.wpick([("equal", 3), ("larger", 4), ("smaller", 1)])
+    rel = rng.wpick([("equal", 3), ("larger", 4), ("smaller", 3 if huge else 1)])
     bound = total if rel == "equal" else (total + rng.randint(1, 6) if rel == "larger" else total - rng.randint(1, total))
+    if rel == "smaller" and rng.chance(0.8 if huge else 0.5):
+        bound = total - rng.randint(1, min(total, 3))  # a manifest that overshoots the bound by a card or two
     n_cvrs = rng.pick([total, total, rng.randint(0, total), total + rng.randint(1, 3)])
+    if huge and rel != "smaller":
+        n_cvrs = rng.pick([total, total, total - rng.randint(0, 5), total + rng.randint(1, 3)])
     vendor = rng.pick(["dominion", "hart"])
     lo = 1 if vendor == "dominion" else 0
     valid = list(range(lo, lo + max(bound, 0)))
